@@ -471,7 +471,10 @@ func (c *Client) TwoPhaseCommit(ctx context.Context, primary []byte, mutations [
 			return err
 		}
 	}
-	if err := c.commitRegion(ctx, primaryID, collectKeys(primaryMutations), startVersion, commitVersion); err != nil {
+	// The primary key decides the transaction: it goes first in its region's
+	// commit request, because Commit applies keys in order and stops at the
+	// first failing key.
+	if err := c.commitRegion(ctx, primaryID, primaryFirst(collectKeys(primaryMutations), primary), startVersion, commitVersion); err != nil {
 		return err
 	}
 	for regionID, muts := range grouped {
@@ -940,6 +943,19 @@ func collectKeys(muts []*pb.Mutation) [][]byte {
 			continue
 		}
 		out = append(out, append([]byte(nil), mut.GetKey()...))
+	}
+	return out
+}
+
+// primaryFirst returns keys with the primary key moved to the front.
+func primaryFirst(keys [][]byte, primary []byte) [][]byte {
+	out := make([][]byte, 0, len(keys))
+	for _, key := range keys {
+		if bytesCompare(key, primary) == 0 {
+			out = append([][]byte{key}, out...)
+			continue
+		}
+		out = append(out, key)
 	}
 	return out
 }
